@@ -258,6 +258,19 @@ func c06Bits(e uintptr) [5]int {
 	return [5]int{b(e & 1), b(e & 2), b(e & 4), b(e & (1 << 9)), b(e >> 63)}
 }
 
+// c06Extra decodes a mask over the page-table bits that carry no meaning for this property: write-through,
+// cache-disable, accessed, dirty, bit 7 (PAT in a last-level entry; never used on upper levels, where it would
+// mean a huge page), global, the available bits 10, 11, 52, 58 and protection-key bit 62
+func c06Extra(mask int, leaf bool) uintptr {
+	var e uintptr
+	for i, pos := range []uint{3, 4, 5, 6, 7, 8, 10, 11, 52, 58, 62} {
+		if mask>>uint(i)&1 != 0 && (leaf || pos != 7) {
+			e |= 1 << pos
+		}
+	}
+	return e
+}
+
 func c06Flags(bits int) PageTableEntryFlag {
 	var f PageTableEntryFlag
 	for i, fl := range []PageTableEntryFlag{FlagPresent, FlagRW, FlagUserAccessible, FlagCopyOnWrite, FlagNoExecute} {
@@ -566,10 +579,24 @@ func (d *c06Driver) boot() bool {
 func (d *c06Driver) zeroFrame() mm.Frame { return ReservedZeroedFrame }
 
 // mapCall: one call of the mapping interface; via 0 Map, 1 kernelPDT.Map (active), 2 Map on an inactive address space
-func (d *c06Driver) mapCall(via int, pg int, page mm.Page, frame mm.Frame, bits int) string {
+// secondSpace creates the second address space on first use
+func (d *c06Driver) secondSpace() {
+	if d.pdt.pdtFrame == 0 {
+		nf, _ := d.m.alloc()
+		if err := d.pdt.Init(nf); err != nil {
+			panic("harness: cannot create second address space")
+		}
+		d.m.addRoot(nf.Address())
+	}
+}
+
+func (d *c06Driver) mapCall(via int, pg int, page mm.Page, frame mm.Frame, bits int, extra ...int) string {
 	m := d.m
 	m.arm(0, false)
 	fl := c06Flags(bits)
+	if len(extra) > 0 {
+		fl |= PageTableEntryFlag(c06Extra(extra[0], true))
+	}
 	var res string
 	name := "map"
 	switch via {
@@ -580,13 +607,8 @@ func (d *c06Driver) mapCall(via int, pg int, page mm.Page, frame mm.Frame, bits 
 		res = c06Call(func() string { return c06Err(kernelPDT.Map(page, frame, fl)) })
 	default:
 		name = "pdti"
-		if d.pdt.pdtFrame == 0 {
-			nf, _ := m.alloc()
-			if err := d.pdt.Init(nf); err != nil {
-				panic("harness: cannot create second address space")
-			}
-			m.addRoot(nf.Address())
-		}
+		d.secondSpace()
+		m.arm(0, false)
 		res = c06Call(func() string { return c06Err(d.pdt.Map(page, frame, fl)) })
 	}
 	d.emit(c06Ev{"k": "map", "via": name, "pg": pg, "fr": m.fid(uintptr(frame)), "fl": bits, "res": res})
@@ -676,7 +698,7 @@ func (d *c06Driver) pokeUp(pg int, lvl uint, present int) {
 // environment: give an upper-level entry on the page's path exactly these five flag bits (frame and other
 // bits stay).  Works on entries whose next table is missing too; the present bit is only set on an entry that
 // points into physical memory.
-func (d *c06Driver) pokeUpFlags(pg int, lvl uint, bits int) {
+func (d *c06Driver) pokeUpFlags(pg int, lvl uint, bits int, extra int) {
 	p := d.m.entryPtr(c06UVA[pg], lvl)
 	if p == nil {
 		return
@@ -685,7 +707,7 @@ func (d *c06Driver) pokeUpFlags(pg int, lvl uint, bits int) {
 		bits &^= 1
 	}
 	e := *p &^ (uintptr(FlagPresent|FlagRW|FlagUserAccessible|FlagCopyOnWrite) | 1<<63)
-	*p = e | uintptr(c06Flags(bits))
+	*p = e | uintptr(c06Flags(bits)) | c06Extra(extra, false)
 	d.env("pokeupf")
 }
 
@@ -711,7 +733,7 @@ func (d *c06Driver) frameOf(pg int) (mm.Frame, bool) {
 
 // ---------------------------------------------------------------- scripts (shared by legs G and T and by replay)
 //
-// An op is a JSON array: ["fault",pg,off,code,afail,tfail] ["faultat",kind,code] ["mapz",pg,bits,via] ["tmpz"]
+// An op is a JSON array: ["fault",pg,off,code,afail,tfail] ["faultat",kind,code] ["mapz",pg,bits,via,extra] ["tmpz"] ["droptmp",lvl] ["activate",which]
 // ["regionz",k,n,bits,identity] ["share",q,p,bits] ["mapnew",pg,bits] ["poke",pg,bits,extra] ["pokeup",pg,lvl,present] ["pokeupf",pg,lvl,bits]
 // ["store",pg] ["unmap",pg] ["gpf"] ["tmp"]
 
@@ -783,7 +805,7 @@ func (d *c06Driver) run(script [][]interface{}) {
 				return
 			}
 		case "mapz":
-			d.mapCall(a(3), a(1), mm.PageFromAddress(c06UVA[a(1)]), d.zeroFrame(), a(2))
+			d.mapCall(a(3), a(1), mm.PageFromAddress(c06UVA[a(1)]), d.zeroFrame(), a(2), a(4))
 		case "tmpz":
 			d.mapTemporary(d.zeroFrame())
 		case "tmp":
@@ -798,11 +820,27 @@ func (d *c06Driver) run(script [][]interface{}) {
 		case "mapnew":
 			d.mapCall(0, a(1), mm.PageFromAddress(c06UVA[a(1)]), mm.Frame(d.m.envFrame()), a(2))
 		case "poke":
-			d.poke(a(1), a(2), uintptr(a(3))&0xdf8)
+			d.poke(a(1), a(2), c06Extra(a(3), true))
 		case "pokeup":
 			d.pokeUp(a(1), uint(a(2))%3, a(3))
 		case "pokeupf":
-			d.pokeUpFlags(a(1), uint(a(2))%3, a(3))
+			d.pokeUpFlags(a(1), uint(a(2))%3, a(3), a(4))
+		case "droptmp":
+			// environment: the tables of the temporary-mapping page are gone (as in an address space that never
+			// used it), so the next MapTemporary has to allocate them
+			if p := d.m.entryPtr(tempMappingAddr, 1+uint(a(1))%2); p != nil {
+				*p = 0
+				d.env("droptmp")
+			}
+		case "activate":
+			// environment: switch to the second address space / back to the kernel's (real Activate)
+			if a(1) != 0 {
+				d.secondSpace()
+				d.pdt.Activate()
+			} else {
+				kernelPDT.Activate()
+			}
+			d.env("activate")
 		case "store":
 			d.store(a(1))
 		case "unmap":
@@ -889,7 +927,7 @@ func c06RandomScript(rng *rand.Rand) [][]interface{} {
 		}
 		return bitsets[rng.Intn(len(bitsets))]
 	}
-	codes := []int{0, 1, 2, 3, 4, 5, 6, 7, 8, 9, 11, 16, 17, 19, 31, 0xf00, 0x7fffffff}
+	codes := []int{0, 1, 2, 3, 4, 5, 6, 7, 8, 9, 11, 16, 17, 19, 31, 0xf00, 0x7fffffff, 0xffffffff, 1 << 32, 1<<40 + 3}
 	for i := 0; i < n; i++ {
 		pg := 1 + rng.Intn(c06NP)
 		switch r := rng.Intn(100); {
@@ -909,7 +947,15 @@ func c06RandomScript(rng *rand.Rand) [][]interface{} {
 		case r < 33:
 			op("faultat", rng.Intn(len(c06OtherAddrs)), codes[rng.Intn(len(codes))], rng.Intn(4096))
 		case r < 47:
-			op("mapz", pg, randBits()|1, rng.Intn(3))
+			mb := randBits()
+			if rng.Intn(6) != 0 {
+				mb |= 1 // (mostly present; a writable but non-present request is part of the interface too)
+			}
+			mx := 0
+			if rng.Intn(3) == 0 {
+				mx = rng.Intn(2048)
+			}
+			op("mapz", pg, mb, rng.Intn(3), mx)
 		case r < 50:
 			op("tmpz")
 		case r < 52:
@@ -922,7 +968,7 @@ func c06RandomScript(rng *rand.Rand) [][]interface{} {
 		case r < 74:
 			op("mapnew", pg, randBits()|1)
 		case r < 86:
-			op("poke", pg, randBits(), rng.Intn(4096))
+			op("poke", pg, randBits(), rng.Intn(2048))
 		case r < 89:
 			op("pokeup", pg, rng.Intn(3), rng.Intn(2))
 		case r < 93:
@@ -931,9 +977,13 @@ func c06RandomScript(rng *rand.Rand) [][]interface{} {
 			if rng.Intn(3) == 0 {
 				ub = rng.Intn(32)
 			}
-			op("pokeupf", pg, rng.Intn(3), ub)
-		case r < 97:
+			op("pokeupf", pg, rng.Intn(3), ub, rng.Intn(2)*rng.Intn(2048))
+		case r < 95:
 			op("store", pg)
+		case r < 96:
+			op("droptmp", rng.Intn(2))
+		case r < 97:
+			op("activate", rng.Intn(2))
 		case r < 99:
 			op("unmap", pg)
 		default:
